@@ -418,6 +418,9 @@ def mk_cmp(op, a, b):
                 return C(bool(r))
         except Exception:
             pass
+    if op in ("in", "not in") and is_const(a) and b[0] in ("tuple", "list") and all(is_const(x) for x in b[1]):
+        r_ = any(a[1] == x[1] and type(a[1]) is type(x[1]) for x in b[1])
+        return C(r_ if op == "in" else not r_)
     # `t is None` for a term that is certainly an array / a number / a display: decided
     if op in ("is", "is not") and (a == NONE or b == NONE):
         t_ = b if a == NONE else a
@@ -459,11 +462,38 @@ def mk_cmp(op, a, b):
     return ("cmp", op, a, b)
 
 
+def mk_display(kind, items):
+    """A list / tuple display; a starred conditional between two displays is lifted out:
+    [a, *([] if c else [b])]  ==  ([a] if c else [a, b])"""
+    for i, x in enumerate(items):
+        if x[0] == "star" and x[1][0] == "ite" and all(
+                y[0] in ("tuple", "list") and not any(z[0] == "star" for z in y[1]) for y in (x[1][2], x[1][3])):
+            c, a, b = x[1][1], x[1][2], x[1][3]
+            return mk_ite(c, mk_display(kind, items[:i] + tuple(a[1]) + items[i + 1:]),
+                          mk_display(kind, items[:i] + tuple(b[1]) + items[i + 1:]))
+    return (kind, tuple(items))
+
+
 def mk_ite(c, a, b):
     if is_const(c):
         return a if c[1] else b
     if a == b:
         return a
+    # inside the branch where c holds, a nested conditional on the same c is its first branch (and its second in the
+    # other branch): (f(p if c else q) if c else g(p if c else q)) == (f(p) if c else g(q))
+    if c[0] in ("sym", "bv", "attr", "cmp"):
+        def _under(t, truth):
+            def rw(s2):
+                if s2[0] == "ite" and s2[1] == c:
+                    return s2[2] if truth else s2[3]
+                return None
+            return subst(t, rw)
+        if any(s2[0] == "ite" and s2[1] == c for s2 in walk(a)):
+            a = _under(a, True)
+        if any(s2[0] == "ite" and s2[1] == c for s2 in walk(b)):
+            b = _under(b, False)
+        if a == b:
+            return a
     # normalise negated tests so `a if c else b` == `b if not c else a`
     if c[0] == "not":
         return ("ite", c[1], b, a)
@@ -2209,7 +2239,7 @@ class Interp:
                         items.append(("star", v))
                 else:
                     items.append(self.ev(e, env, ctx))
-            return ("tuple" if isinstance(node, ast.Tuple) else "list", tuple(items))
+            return mk_display("tuple" if isinstance(node, ast.Tuple) else "list", tuple(items))
         if isinstance(node, ast.Dict):
             items = []
             for k, v in zip(node.keys, node.values):
@@ -2380,6 +2410,16 @@ class Interp:
                 if k == name:
                     return fv
             return ("unknown", f"attribute {name} of a callable instance is not set by its constructor")
+        if obj[0] == "ext" and obj[1].startswith("flowjax") and self.inline_repo:
+            r_ = self.prog.lookup(obj[1])
+            if r_ and r_[0] == "class" and name in r_[1].methods and name.startswith(("_", "from_")) or (
+                    r_ and r_[0] == "class" and obj[1] in NT_CLASSES and name in r_[1].methods):
+                fn_ = r_[1].methods[name]
+                decs_ = {ast.unparse(d_) for d_ in fn_.decorator_list}
+                if "classmethod" in decs_:
+                    return BoundMethod(r_[1], fn_, r_[1], obj, name)
+                if "staticmethod" in decs_:
+                    return Closure(fn_, Env(), (r_[1].module, None, None), name)
         if obj[0] == "ext":
             return ("ext", self.prog.canonical(f"{obj[1]}.{name}"))
         if obj[0] == "const" and isinstance(obj[1], str):
@@ -2434,9 +2474,9 @@ class Interp:
                 # `+` on shapes / tuples / lists is concatenation: order matters.  A display on one side is spelled
                 # as the display with the other side starred: [a] + xs == [a, *xs]
                 if a[0] in ("tuple", "list") and b[0] not in ("tuple", "list"):
-                    return (a[0], a[1] + (("star", b),))
+                    return mk_display(a[0], a[1] + (("star", b),))
                 if b[0] in ("tuple", "list") and a[0] not in ("tuple", "list"):
-                    return (b[0], (("star", a),) + b[1])
+                    return mk_display(b[0], (("star", a),) + b[1])
                 return ("concat", a, b)
             if is_const(a) and isinstance(a[1], str) or is_const(b) and isinstance(b[1], str):
                 return ("concat", a, b)
